@@ -124,7 +124,12 @@ func (b BugsByCreationTime) Less(i, j int) bool {
 	// by the first sorting using the logical clock. That means that if users
 	// synchronize their bugs regularly, the timestamp will rarely be used, and
 	// should still provide a kinda accurate sorting when needed.
-	return b[i].CreateUnixTime < b[j].CreateUnixTime
+	if b[i].CreateUnixTime != b[j].CreateUnixTime {
+		return b[i].CreateUnixTime < b[j].CreateUnixTime
+	}
+
+	// Still equal: fall back on the id, so that the order doesn't depend on the order of the input.
+	return b[i].Id() < b[j].Id()
 }
 
 func (b BugsByCreationTime) Swap(i, j int) {
@@ -152,7 +157,12 @@ func (b BugsByEditTime) Less(i, j int) bool {
 	// by the first sorting using the logical clock. That means that if users
 	// synchronize their bugs regularly, the timestamp will rarely be used, and
 	// should still provide a kinda accurate sorting when needed.
-	return b[i].EditUnixTime < b[j].EditUnixTime
+	if b[i].EditUnixTime != b[j].EditUnixTime {
+		return b[i].EditUnixTime < b[j].EditUnixTime
+	}
+
+	// Still equal: fall back on the id, so that the order doesn't depend on the order of the input.
+	return b[i].Id() < b[j].Id()
 }
 
 func (b BugsByEditTime) Swap(i, j int) {
